@@ -15,6 +15,8 @@ BINARIES['math'] = dict(objs=[O('math_engine.cpp', True)], libs=D.ENGINE_LIBS)
 
 BINARIES['dir'] = dict(objs=[O('dir_engine.cpp', True)], libs=D.ENGINE_LIBS)
 
+BINARIES['model'] = dict(objs=[O('model_engine.cpp', True)], libs=D.ENGINE_LIBS)
+
 PLANS = {}
 def plan(name):
     def deco(fn): PLANS[name] = fn; return fn
@@ -67,10 +69,20 @@ def c11(run):
     engine_step(run, 'rel', ['C11'])
     engine_step(run, 'dir', ['C11'])
 
+@plan('C12')
+def c12(run):
+    engine_step(run, 'model', ['C12'])
+    run.assumptions += ['(lambda, nu) at nu = 0 is excluded: it does not determine a material (lambda = 0 for every mu)', '"a few ulps" relative to the measured conditioning of the modulus-pair map (DESIGN 4.6)']
+
+@plan('C13')
+def c13(run):
+    engine_step(run, 'model', ['C13'])
+
 @plan('C14')
 def c14(run):
     engine_step(run, 'qty', ['C14'])
     engine_step(run, 'math', ['C14'])
+    engine_step(run, 'model', ['C14'])
     run.assumptions += ['no NaN components (the statement is about non-NaN values)']
 
 @plan('C15')
